@@ -116,6 +116,14 @@ Theorem C36_joint_degree (jtype : Z) (limited : bool) (lo hi x : R) :
 Proof. split; [exact (jointRange_degree jtype limited lo hi) | exact (jointRef_degree jtype x)]. Qed.
 Print Assumptions C36_joint_degree.
 
+(* ---- nested attachment (discrete model of mjCModel::FindSpec): for ANY attachment tree (A attached into B attached into C, ...)
+   the spec found for a compiler is the one that owns it -- never an intermediate spec -- and every compiler of the tree is found;
+   hence an attached element is compiled with the angle unit / euler sequence of the spec it was written in, at every depth *)
+Theorem C36_findspec (t : spectree) (c : Z) :
+  (forall x : Z, findSpec t c = Some x -> x = c) /\ (In c (compilers t) -> findSpec t c = Some c).
+Proof. exact (findSpec_spec t c). Qed.
+Print Assumptions C36_findspec.
+
 (* the premises are satisfiable *)
 Example C36_example_unit : unitq (/ 2, / 2, / 2, / 2) /\ Forall validEuler ["x"%char; "Y"%char; "z"%char] /\
   mjEPS <= dot3 (0, 0, 2) (0, 0, 2) /\ mjEPS < Rabs (norm3 (0, 0, 2) - 1) /\ unitp ((1, 2, 3), (/ 2, / 2, - / 2, / 2)).
